@@ -51,28 +51,31 @@ pub(crate) mod __verif_k {
 
     pub fn decode_case(prefix: &str, k: usize) {
         let p = prefix.as_bytes();
-        let mut raw = [0u8; 12];
-        raw[..p.len()].copy_from_slice(p);
-        let mut i = 0;
-        while i < k { raw[p.len() + i] = sym(); i += 1; }
-        let n: usize = kani::any();
-        kani::assume(n >= p.len() && n <= p.len() + k);
-        kani::assume(is_raw_body(&raw, n));
-        let value = unsafe { std::str::from_utf8_unchecked(&raw[..n]) };
-        let mut parser = Parser::new("");
-        let e = parser.parse_string_expression(value);
-        let (want, wn) = ref_decode(&raw, n);
-        match e {
-            Expr::String { value: got } => {
-                assert!(got.len() == wn, "decoded length");
-                let g = got.as_bytes();
-                let mut j = 0;
-                while j < wn { assert!(g[j] == want[j], "decoded character"); j += 1; }
-                kani::cover!(wn < n);
-                kani::cover!(wn == n && n > 0);
-                std::mem::forget(got);
+        // the length is enumerated, the characters are symbolic (a symbolic length makes the iterator's end pointer symbolic)
+        let mut t = 0;
+        while t <= k {
+            let mut raw = [0u8; 12];
+            raw[..p.len()].copy_from_slice(p);
+            let mut i = 0;
+            while i < t { raw[p.len() + i] = sym(); i += 1; }
+            let n = p.len() + t;
+            kani::assume(is_raw_body(&raw, n));
+            let value = unsafe { std::str::from_utf8_unchecked(&raw[..n]) };
+            let mut parser = Parser::new("");
+            let e = parser.parse_string_expression(value);
+            let (want, wn) = ref_decode(&raw, n);
+            match e {
+                Expr::String { value: got } => {
+                    assert!(got.len() == wn, "decoded length");
+                    let g = got.as_bytes();
+                    let mut j = 0;
+                    while j < wn { assert!(g[j] == want[j], "decoded character"); j += 1; }
+                    if t == k && k > 0 { kani::cover!(wn < n); }
+                    std::mem::forget(got);
+                }
+                _ => assert!(false, "not a string expression"),
             }
-            _ => assert!(false, "not a string expression"),
+            t += 1;
         }
     }
 
